@@ -76,6 +76,22 @@ pub fn redirect_stdout() {
     }
 }
 
+/// Called at the top of every libFuzzer iteration (cheap after the first): engine output goes to
+/// /dev/null, and the panic hook libfuzzer-sys installs (which aborts the process on ANY panic,
+/// including the ones the oracles catch on purpose: node watchdog, known engine panics) is replaced
+/// by the harness's quiet hook.  A violation still ends the process: the target panics outside any
+/// catch_unwind and libfuzzer-sys aborts when the panic reaches its wrapper.
+pub fn fuzz_init() {
+    static ONCE: std::sync::Once = std::sync::Once::new();
+    ONCE.call_once(|| {
+        redirect_stdout();
+        std::panic::set_hook(Box::new(|info| {
+            let msg = info.to_string();
+            LAST_PANIC.with(|l| *l.borrow_mut() = msg);
+        }));
+    });
+}
+
 #[derive(Clone, Copy, PartialEq, Eq, Debug)]
 pub enum Tier {
     Quick,
